@@ -20,10 +20,16 @@ def main():
     def dies(h):
         return any(len(s["liveR"]) < len(p["liveR"]) for p, s in zip(h, h[1:]))
     hs, total = sgcommon.histories(ctx, "SymbolGraph_gen_c20t.cfg" if thorough else "SymbolGraph_gen_c20.cfg", dies,
-                                   12000 if thorough else 4000)
+                                   12000 if thorough else 3000)
     ctx.cov["histories_in_bound_with_a_death"] = total
+    # histories in which a rule infers instances from live ones (Infer): the inferred instance lives exactly as long as its holder
+    ctx.run_tlc("SymbolGraph", "SymbolGraph_mc_infer.cfg", expect="ok")
+    hs_i, total_i = sgcommon.histories(ctx, "SymbolGraph_gen_c20i.cfg", lambda h: dies(h) and any(s["a"] == "infer" for s in h),
+                                       6000 if thorough else 1200)
+    ctx.cov["histories_in_bound_with_an_inference_and_a_death"] = total_i
+    hs = hs + hs_i
     cases = [{"mode": "c14", "h": h} for h in hs]
-    loops = [h for h in hs if not any(s["a"] in ("query", "queryx", "queryfirst") for s in h)]
+    loops = [h for h in hs if not any(s["a"] in ("query", "queryx", "queryfirst", "infer") for s in h)]
     # loop bodies proper: histories of create / relate / drop / collect / sweep without queries (SymbolGraph_gen_c14.cfg)
     noq, _ = sgcommon.histories(ctx, "SymbolGraph_gen_c20l.cfg",
                                 lambda h: any(s["a"] == "relate" for s in h) and not any(s["a"] in ("query", "queryx", "queryfirst", "clear") for s in h),
